@@ -259,7 +259,11 @@ def _r1(run, f, r, cfg, it_file, lnode, inode):
     if not is_listing(L):
         # sorted(...) / reversed(...) / list(set(...)) wrappers around the listing
         s = show(L)
-        if "listdir" in s:
+        unf = common.unfollowed_project_calls(run.project, L)
+        if unf:
+            run.undecided("C18.R1", f, lnode, "the upload order is computed by %s, which is not followed: cannot tell where index.wtml ends up" % show(unf[0][1])[:60],
+                          kind="order-helper")
+        elif "listdir" in s:
             run.violated("C18.R1", f, lnode, "the upload order is %s: the listing is re-ordered after (or instead of) moving index.wtml to the end" % s[:80], kind="order-rewrapped")
         else:
             run.undecided("C18.R1", f, lnode, "the uploaded list %s is not the directory listing" % s[:80], kind="list-source")
